@@ -82,6 +82,8 @@ func init() {
 		ln := c.App("len!", BV(64), code)
 		e.Assume(c.mk(&Term{Op: ">=", Sort: BoolSort, Args: []*Term{code, c.IntConst(0)}}))
 		e.Assume(c.SLE(c.BVConst(64, 0), ln))
+		// arbitrary strings are at most 64 KiB long (stated bound): the replay can then build one of the model's length
+		e.Assume(c.SLE(ln, c.BVConst(64, 1<<16)))
 		e.Assume(c.Eq(c.Eq(code, c.IntConst(0)), c.Eq(ln, c.BVConst(64, 0))))
 		return code, false
 	})
